@@ -7,7 +7,7 @@ OK lines, substitutes error lines, and raises at any write or read.
 DESIGN.md section 7, C07.
 """
 
-from common import (V, pair_faults, EXC_ALL, ebb_spec, PORT_NAMES, mk_ops, lcall, discover, single_faults, with_faults,
+from common import (V, pair_faults, raise_pairs, EXC_ALL, ebb_spec, PORT_NAMES, mk_ops, lcall, discover, single_faults, with_faults,
                     failish)
 
 PROP = 'C07'
@@ -278,7 +278,7 @@ def sweep_cells(tier):
     # a board without a nickname answers QT with a blank data line (then OK): still a data line
     cells.append(['query', 'QT\r', False, True, 'blank'])
     cells.append(['query', 'QT\r', True, False, 'blank'])
-    for nick in ('OK', 'ok', '{n}', 'Err'):
+    for nick in ('OK', 'ok', '{n}', 'Err', 'Plot Err: 2', 'Err:42'):
         cells.append(['query', 'QT\r', False, True, nick])
     for text in ('ST,{bot}\r', 'ST,a}b{0}\r', 'SL,{1}\r', 'ST,100%s\r'):
         cells.append(['command', text, False, True])
@@ -363,6 +363,8 @@ def sweep_expand(cell):
     # unplug at any later I/O event (inside either retry loop)
     for faults in pair_faults(base, 2, delays=(1, 100), exc_classes=('SerialException', 'RuntimeError')):
         yield with_faults(base, faults)
+    for faults in raise_pairs(rec):
+        yield with_faults(base, faults)
     nl = awaited(text, kind == 'query')
     delays = [0, 1, 2, 99, 100]
     if nl == 1:
@@ -380,7 +382,7 @@ def gen(rng, idx):
     style = rng.choice(['mac', 'linux', 'win'])
     fw = rng.choice([(2, 5, 5), (2, 6, 2), (2, 8, 1), (3, 0, 2)])
     world = _world(nb, err_ok=rng.random() < 0.5, fw=fw, style=style,
-                   nicks=[rng.choice(['', 'Leg%d' % i, ' pad ', 'OK', 'ok', '{n}', 'Err']) for i in range(nb)],
+                   nicks=[rng.choice(['', 'Leg%d' % i, ' pad ', 'OK', 'ok', '{n}', 'Err', 'Plot Err: 2']) for i in range(nb)],
                    eol=rng.choice(['crlf', 'crlf', 'lf', 'nlcr']))
     ops = []
     for i in range(nb):
